@@ -464,22 +464,22 @@ marginalize_h!(marginalize_2x2x1x1_rm1, 4, 4, 1, 3, 2, [2, 2, 1, 1], [1], 7);
 // @harness props=C04 tier=thorough group=f64 bounds=shape=[2,2,1,1],remove=[3,1](in-this-order),cells=0..7 timeout=1200
 marginalize_h!(marginalize_2x2x1x1_rm31, 4, 4, 2, 2, 2, [2, 2, 1, 1], [3, 1], 7);
 
-// @harness props=C04 tier=quick group=f64 bounds=shape=[2,2,2,2],remove=[1,3](in-this-order),cells=0..7 timeout=1200
+// @harness props=C04 tier=thorough group=f64 bounds=shape=[2,2,2,2],remove=[1,3](in-this-order),cells=0..7 timeout=1200
 marginalize_h!(marginalize_2x2x2x2_rm13, 4, 16, 2, 2, 4, [2, 2, 2, 2], [1, 3], 19);
 
 // @harness props=C04 tier=thorough group=f64 bounds=shape=[2,2,2,2],remove=[3,1](in-this-order),cells=0..7 timeout=1200
 marginalize_h!(marginalize_2x2x2x2_rm31, 4, 16, 2, 2, 4, [2, 2, 2, 2], [3, 1], 19);
 
-// @harness props=C04 tier=quick group=f64 bounds=shape=[2,2,2,2],remove=[0,1,2](in-this-order),cells=0..7 timeout=1200
+// @harness props=C04 tier=thorough group=f64 bounds=shape=[2,2,2,2],remove=[0,1,2](in-this-order),cells=0..7 timeout=1200
 marginalize_h!(marginalize_2x2x2x2_rm012, 4, 16, 3, 1, 2, [2, 2, 2, 2], [0, 1, 2], 19);
 
-// @harness props=C04 tier=quick group=f64 bounds=shape=[2,2,2,2],remove=[2,0,1](in-this-order),cells=0..7 timeout=1200
+// @harness props=C04 tier=thorough group=f64 bounds=shape=[2,2,2,2],remove=[2,0,1](in-this-order),cells=0..7 timeout=1200
 marginalize_h!(marginalize_2x2x2x2_rm201, 4, 16, 3, 1, 2, [2, 2, 2, 2], [2, 0, 1], 19);
 
-// @harness props=C04 tier=quick group=f64 bounds=shape=[2,2,2,2],remove=[3,2,1](in-this-order),cells=0..7 timeout=1200
+// @harness props=C04 tier=thorough group=f64 bounds=shape=[2,2,2,2],remove=[3,2,1](in-this-order),cells=0..7 timeout=1200
 marginalize_h!(marginalize_2x2x2x2_rm321, 4, 16, 3, 1, 2, [2, 2, 2, 2], [3, 2, 1], 19);
 
-// @harness props=C04 tier=quick group=f64 bounds=shape=[2,2,2,2],remove=[0,3,1](in-this-order),cells=0..7 timeout=1200
+// @harness props=C04 tier=thorough group=f64 bounds=shape=[2,2,2,2],remove=[0,3,1](in-this-order),cells=0..7 timeout=1200
 marginalize_h!(marginalize_2x2x2x2_rm031, 4, 16, 3, 1, 2, [2, 2, 2, 2], [0, 3, 1], 19);
 
 // @harness props=C04 tier=thorough group=f64 bounds=shape=[2,2,2,2],remove=[1,2,3](in-this-order),cells=0..7 timeout=1200
@@ -488,7 +488,7 @@ marginalize_h!(marginalize_2x2x2x2_rm123, 4, 16, 3, 1, 2, [2, 2, 2, 2], [1, 2, 3
 // @harness props=C04 tier=thorough group=f64 bounds=shape=[2,2,2,2],remove=[3,0,2](in-this-order),cells=0..7 timeout=1200
 marginalize_h!(marginalize_2x2x2x2_rm302, 4, 16, 3, 1, 2, [2, 2, 2, 2], [3, 0, 2], 19);
 
-// @harness props=C04 tier=quick group=f64 bounds=shape=[2,2,2,2],remove=[1,3,2](in-this-order),cells=0..7 timeout=1200
+// @harness props=C04 tier=thorough group=f64 bounds=shape=[2,2,2,2],remove=[1,3,2](in-this-order),cells=0..7 timeout=1200
 marginalize_h!(marginalize_2x2x2x2_rm132, 4, 16, 3, 1, 2, [2, 2, 2, 2], [1, 3, 2], 19);
 
 // @harness props=C04 tier=thorough group=f64 bounds=shape=[2,2,2,2],remove=[0,2,1](in-this-order),cells=0..7 timeout=1200
@@ -496,6 +496,57 @@ marginalize_h!(marginalize_2x2x2x2_rm021, 4, 16, 3, 1, 2, [2, 2, 2, 2], [0, 2, 1
 
 // @harness props=C04 tier=thorough group=f64 bounds=shape=[2,2,2,2],remove=[2,3,1](in-this-order),cells=0..7 timeout=1200
 marginalize_h!(marginalize_2x2x2x2_rm231, 4, 16, 3, 1, 2, [2, 2, 2, 2], [2, 3, 1], 19);
+
+// @harness props=C04 tier=quick group=f64 bounds=shape=[2,1,3,1],remove=[1,2,3](in-this-order),cells=0..7 timeout=1200
+marginalize_h!(marginalize_2x1x3x1_rm123, 4, 6, 3, 1, 2, [2, 1, 3, 1], [1, 2, 3], 9);
+
+// @harness props=C04 tier=quick group=f64 bounds=shape=[2,1,3,1],remove=[1,3,2](in-this-order),cells=0..7 timeout=1200
+marginalize_h!(marginalize_2x1x3x1_rm132, 4, 6, 3, 1, 2, [2, 1, 3, 1], [1, 3, 2], 9);
+
+// @harness props=C04 tier=quick group=f64 bounds=shape=[2,1,3,1],remove=[2,1,3](in-this-order),cells=0..7 timeout=1200
+marginalize_h!(marginalize_2x1x3x1_rm213, 4, 6, 3, 1, 2, [2, 1, 3, 1], [2, 1, 3], 9);
+
+// @harness props=C04 tier=quick group=f64 bounds=shape=[2,1,3,1],remove=[2,3,1](in-this-order),cells=0..7 timeout=1200
+marginalize_h!(marginalize_2x1x3x1_rm231, 4, 6, 3, 1, 2, [2, 1, 3, 1], [2, 3, 1], 9);
+
+// @harness props=C04 tier=quick group=f64 bounds=shape=[2,1,3,1],remove=[3,1,2](in-this-order),cells=0..7 timeout=1200
+marginalize_h!(marginalize_2x1x3x1_rm312, 4, 6, 3, 1, 2, [2, 1, 3, 1], [3, 1, 2], 9);
+
+// @harness props=C04 tier=quick group=f64 bounds=shape=[2,1,3,1],remove=[3,2,1](in-this-order),cells=0..7 timeout=1200
+marginalize_h!(marginalize_2x1x3x1_rm321, 4, 6, 3, 1, 2, [2, 1, 3, 1], [3, 2, 1], 9);
+
+// @harness props=C04 tier=quick group=f64 bounds=shape=[2,1,3,1],remove=[0,1,3](in-this-order),cells=0..7 timeout=1200
+marginalize_h!(marginalize_2x1x3x1_rm013, 4, 6, 3, 1, 3, [2, 1, 3, 1], [0, 1, 3], 9);
+
+// @harness props=C04 tier=quick group=f64 bounds=shape=[2,1,3,1],remove=[0,3,1](in-this-order),cells=0..7 timeout=1200
+marginalize_h!(marginalize_2x1x3x1_rm031, 4, 6, 3, 1, 3, [2, 1, 3, 1], [0, 3, 1], 9);
+
+// @harness props=C04 tier=quick group=f64 bounds=shape=[2,1,3,1],remove=[1,0,3](in-this-order),cells=0..7 timeout=1200
+marginalize_h!(marginalize_2x1x3x1_rm103, 4, 6, 3, 1, 3, [2, 1, 3, 1], [1, 0, 3], 9);
+
+// @harness props=C04 tier=quick group=f64 bounds=shape=[2,1,3,1],remove=[1,3,0](in-this-order),cells=0..7 timeout=1200
+marginalize_h!(marginalize_2x1x3x1_rm130, 4, 6, 3, 1, 3, [2, 1, 3, 1], [1, 3, 0], 9);
+
+// @harness props=C04 tier=quick group=f64 bounds=shape=[2,1,3,1],remove=[3,0,1](in-this-order),cells=0..7 timeout=1200
+marginalize_h!(marginalize_2x1x3x1_rm301, 4, 6, 3, 1, 3, [2, 1, 3, 1], [3, 0, 1], 9);
+
+// @harness props=C04 tier=quick group=f64 bounds=shape=[2,1,3,1],remove=[3,1,0](in-this-order),cells=0..7 timeout=1200
+marginalize_h!(marginalize_2x1x3x1_rm310, 4, 6, 3, 1, 3, [2, 1, 3, 1], [3, 1, 0], 9);
+
+// @harness props=C04 tier=quick group=f64 bounds=shape=[2,1,3,1],remove=[0,2](in-this-order),cells=0..7 timeout=1200
+marginalize_h!(marginalize_2x1x3x1_rm02, 4, 6, 2, 2, 1, [2, 1, 3, 1], [0, 2], 9);
+
+// @harness props=C04 tier=quick group=f64 bounds=shape=[2,1,3,1],remove=[2,0](in-this-order),cells=0..7 timeout=1200
+marginalize_h!(marginalize_2x1x3x1_rm20, 4, 6, 2, 2, 1, [2, 1, 3, 1], [2, 0], 9);
+
+// @harness props=C04 tier=quick group=f64 bounds=shape=[2,1,3,1],remove=[0,3,2](in-this-order),cells=0..7 timeout=1200
+marginalize_h!(marginalize_2x1x3x1_rm032, 4, 6, 3, 1, 1, [2, 1, 3, 1], [0, 3, 2], 9);
+
+// @harness props=C04 tier=quick group=f64 bounds=shape=[2,1,3,1],remove=[2,3,0](in-this-order),cells=0..7 timeout=1200
+marginalize_h!(marginalize_2x1x3x1_rm230, 4, 6, 3, 1, 1, [2, 1, 3, 1], [2, 3, 0], 9);
+
+// @harness props=C04 tier=quick group=f64 bounds=shape=[2,1,3,1],remove=[3,0,2](in-this-order),cells=0..7 timeout=1200
+marginalize_h!(marginalize_2x1x3x1_rm302, 4, 6, 3, 1, 1, [2, 1, 3, 1], [3, 0, 2], 9);
 
 // @harness props=C04 tier=thorough group=f64 bounds=shape=[3,2,4],remove=[0](in-this-order),cells=0..7 timeout=1200
 marginalize_h!(marginalize_3x2x4_rm0, 3, 24, 1, 2, 8, [3, 2, 4], [0], 27);
@@ -793,3 +844,806 @@ project_h!(project_structure_3x2x3_to_2x2x2, 3, 18, 8, [3, 2, 3], [2, 2, 2], 21)
 project_h!(project_structure_2x2x2x2_to_1x2x1x2, 4, 16, 4, [2, 2, 2, 2], [1, 2, 1, 2], 19);
 
 //@@END PROJECT_CASES@@
+
+// ------------------------------------------------------------------------------------------
+// C13 normalize
+// ------------------------------------------------------------------------------------------
+
+/// cells 0..7 whose sum is a power of two 2^k (k = 0..5): out[i] * 2^k == x[i] exactly (ratios are
+/// preserved and the entries sum to one).
+fn normalize_case<const R: usize, const N: usize>(shape: [usize; R]) {
+    let d: [u8; N] = small::<N>(8);
+    let mut total = 0u32;
+    let mut p = 0;
+    while p < N {
+        total += d[p] as u32;
+        p += 1;
+    }
+    let k: u32 = kani::any();
+    kani::assume(k <= 5 && total == (1u32 << k));
+    let mut scs = scs_of(shape, &d);
+    scs.normalize();
+    let out = scs.inner().as_slice();
+    let scale = (1u32 << k) as f64;
+    let mut p = 0;
+    while p < N {
+        assert!(out[p] * scale == d[p] as f64);
+        p += 1;
+    }
+    kani::cover!(k >= 2, "a sum of at least four");
+    kani::cover!(k == 0, "already normalised");
+    core::mem::forget(scs);
+}
+
+macro_rules! normalize_h {
+    ($name:ident, $r:literal, $n:literal, $shape:expr, $unw:literal) => {
+        #[kani::proof]
+        #[kani::unwind($unw)]
+        fn $name() {
+            normalize_case::<$r, $n>($shape)
+        }
+    };
+}
+
+// @harness props=C13 tier=quick group=f64 bounds=shape=[4],cells=0..7,sum=2^k(k<=5) timeout=900
+normalize_h!(normalize_exact_4, 1, 4, [4], 8);
+// @harness props=C13 tier=quick group=f64 bounds=shape=[2,3],cells=0..7,sum=2^k(k<=5) timeout=900
+normalize_h!(normalize_exact_2x3, 2, 6, [2, 3], 10);
+// @harness props=C13 tier=thorough group=f64 bounds=shape=[2,2,2],cells=0..7,sum=2^k(k<=5) timeout=1800
+normalize_h!(normalize_exact_2x2x2, 3, 8, [2, 2, 2], 12);
+
+/// general sums (not powers of two): entries sum to one and ratios are preserved, up to rounding
+fn normalize_general<const N: usize>() {
+    let d: [u8; N] = small::<N>(4);
+    let mut total = 0u32;
+    let mut p = 0;
+    while p < N {
+        total += d[p] as u32;
+        p += 1;
+    }
+    kani::assume(total > 0);
+    let mut scs = scs_of([N], &d);
+    scs.normalize();
+    let out = scs.inner().as_slice();
+    let mut sum = 0.0f64;
+    let mut p = 0;
+    while p < N {
+        sum += out[p];
+        assert!(close(out[p] * total as f64, d[p] as f64));
+        p += 1;
+    }
+    assert!(close(sum, 1.0));
+    kani::cover!(total == 3, "a sum that is not a power of two");
+    core::mem::forget(scs);
+}
+
+// @harness props=C13 tier=quick group=f64 bounds=shape=[3],cells=0..3,any-positive-sum,tolerance=1e-9 timeout=900
+#[kani::proof]
+#[kani::unwind(6)]
+fn normalize_general_3() {
+    normalize_general::<3>()
+}
+
+// ------------------------------------------------------------------------------------------
+// C06 / C14 / C17 statistics
+// ------------------------------------------------------------------------------------------
+
+/// exact stand-in for utils::binomial (its ln/exp evaluation is numerics, DESIGN section 1)
+fn binomial_exact(n: u64, k: u64) -> f64 {
+    if k > n {
+        return 0.0;
+    }
+    let mut r: u64 = 1;
+    let mut i = 0;
+    while i < k {
+        r = r * (n - i) / (i + 1);
+        i += 1;
+    }
+    r as f64
+}
+/// CBMC over-approximates powi (spurious NaN); the code only uses the exponent 2
+fn powi_model(x: f64, k: i32) -> f64 {
+    let mut r = 1.0;
+    let mut i = 0;
+    while i < k {
+        r *= x;
+        i += 1;
+    }
+    r
+}
+
+fn sfs_of<const R: usize, const N: usize>(shape: [usize; R], d: &[u8; N]) -> Sfs {
+    // un-normalised on purpose: no inexact division intervenes between the cells and the statistic
+    scs_of(shape, d).into_state_unchecked()
+}
+
+fn harmonic_ref(n: usize) -> f64 {
+    let mut a = 0.0;
+    let mut i = 1;
+    while i < n {
+        a += 1.0 / i as f64;
+        i += 1;
+    }
+    a
+}
+
+/// 1-D statistics against their definitions: S = Σ interior, pi = Σ x_i i(n-i)/C(n,2), theta_W = S/a_n
+fn stat_1d_case<const N: usize>() {
+    let d: [u8; N] = small::<N>(4);
+    let scs = scs_of([N], &d);
+    let n = N - 1;
+    let mut s = 0u32;
+    let mut pi_num = 0u32;
+    let mut i = 1;
+    while i < n {
+        s += d[i] as u32;
+        pi_num += d[i] as u32 * (i * (n - i)) as u32;
+        i += 1;
+    }
+    assert!(scs.segregating_sites() == s as f64);
+    let mut sum = 0u32;
+    let mut i = 0;
+    while i < N {
+        sum += d[i] as u32;
+        i += 1;
+    }
+    assert!(scs.sum() == sum as f64);
+    match scs.pi() {
+        Ok(v) => assert!(close(v, pi_num as f64 / ((n * (n - 1)) as f64 / 2.0))),
+        Err(_) => assert!(false),
+    }
+    match scs.theta_watterson() {
+        Ok(v) => assert!(close(v, s as f64 / harmonic_ref(n))),
+        Err(_) => assert!(false),
+    }
+    // wrong dimensionality is an error, not a panic
+    assert!(scs.pi_xy().is_err() && scs.king().is_err());
+    kani::cover!(s > 0, "polymorphic");
+    core::mem::forget(scs);
+}
+
+macro_rules! stat_1d_h {
+    ($name:ident, $n:literal) => {
+        #[kani::proof]
+        #[kani::unwind(10)]
+        #[kani::stub(crate::utils::binomial, binomial_exact)]
+        fn $name() {
+            stat_1d_case::<$n>()
+        }
+    };
+}
+
+// @harness props=C06 tier=quick group=f64 bounds=1-D,n=3(4-cells),cells=0..3,tolerance=1e-9 timeout=900
+stat_1d_h!(stat_def_1d_n3, 4);
+// @harness props=C06 tier=quick group=f64 bounds=1-D,n=4(5-cells),cells=0..3,tolerance=1e-9 timeout=900
+stat_1d_h!(stat_def_1d_n4, 5);
+// @harness props=C06 tier=thorough group=f64 bounds=1-D,n=6(7-cells),cells=0..3,tolerance=1e-9 timeout=1800
+stat_1d_h!(stat_def_1d_n6, 7);
+
+/// 2-D statistics on an A x B spectrum: pi_xy, f2 (exact in 1/den^2 units), Fst (Hudson, ratio of sums)
+fn stat_2d_case<const A: usize, const B: usize, const N: usize>() {
+    let d: [u8; N] = small::<N>(4);
+    let scs = scs_of([A, B], &d);
+    let (n1, n2) = (A - 1, B - 1);
+    // pi_xy: mean between-population pairwise difference, over all cells but the two corners
+    let mut num = 0u32;
+    let mut i = 0;
+    while i < A {
+        let mut j = 0;
+        while j < B {
+            let corner = (i == 0 && j == 0) || (i == n1 && j == n2);
+            if !corner {
+                num += d[i * B + j] as u32 * (i * (n2 - j) + j * (n1 - i)) as u32;
+            }
+            j += 1;
+        }
+        i += 1;
+    }
+    match scs.pi_xy() {
+        Ok(v) => assert!(close(v, num as f64 / (n1 * n2) as f64)),
+        Err(_) => assert!(false),
+    }
+    // f2 = Σ x (f1 - f2)^2 with f = i/n
+    let sfs = sfs_of([A, B], &d);
+    let mut f2 = 0.0f64;
+    let mut fst_num = 0.0f64;
+    let mut fst_den = 0.0f64;
+    let mut i = 0;
+    while i < A {
+        let mut j = 0;
+        while j < B {
+            let x = d[i * B + j] as f64;
+            let (fi, fj) = (i as f64 / n1 as f64, j as f64 / n2 as f64);
+            f2 += x * (fi - fj) * (fi - fj);
+            let corner = (i == 0 && j == 0) || (i == n1 && j == n2);
+            if !corner {
+                // Hudson (Bhatia et al. 2013, eq. 10), n_i chromosomes in population i
+                fst_num += x * ((fi - fj) * (fi - fj) - fi * (1.0 - fi) / (n1 as f64 - 1.0) - fj * (1.0 - fj) / (n2 as f64 - 1.0));
+                fst_den += x * (fi * (1.0 - fj) + fj * (1.0 - fi));
+            }
+            j += 1;
+        }
+        i += 1;
+    }
+    match sfs.f2() {
+        Ok(v) => assert!(close(v, f2)),
+        Err(_) => assert!(false),
+    }
+    if n1 >= 2 && n2 >= 2 {
+        match sfs.fst() {
+            Ok(v) => assert!((fst_den == 0.0 && v != v) || (fst_den != 0.0 && close(v * fst_den, fst_num))),
+            Err(_) => assert!(false),
+        }
+    }
+    assert!(sfs.f3().is_err() && sfs.f4().is_err() && scs.pi().is_err() && scs.theta_watterson().is_err());
+    kani::cover!(num > 0, "non-trivial");
+    core::mem::forget(sfs);
+    core::mem::forget(scs);
+}
+
+macro_rules! stat_2d_h {
+    ($name:ident, $a:literal, $b:literal, $n:literal) => {
+        #[kani::proof]
+        #[kani::unwind(18)]
+        #[kani::stub(f64::powi, powi_model)]
+        fn $name() {
+            stat_2d_case::<$a, $b, $n>()
+        }
+    };
+}
+
+// @harness props=C06 tier=quick group=f64 bounds=2x3,cells=0..3,tolerance=1e-9 timeout=1800
+stat_2d_h!(stat_def_2d_2x3, 2, 3, 6);
+// @harness props=C06 tier=quick group=f64 bounds=3x3,cells=0..3,tolerance=1e-9 timeout=1800
+stat_2d_h!(stat_def_2d_3x3, 3, 3, 9);
+// @harness props=C06 tier=thorough group=f64 bounds=3x5,cells=0..3,tolerance=1e-9 timeout=3000
+stat_2d_h!(stat_def_2d_3x5, 3, 5, 15);
+
+/// KING / R0 / R1 on 3x3: ratios of the two-individual genotype-pair counts (Waples et al. 2019);
+/// compared as numerator/denominator cross-products so that no division is needed in the oracle.
+fn ratio_is(v: f64, num: i32, den: i32) -> bool {
+    if den == 0 {
+        // x/0: +-inf or NaN, as IEEE division gives
+        if num == 0 {
+            v != v
+        } else {
+            v == (num as f64) / 0.0
+        }
+    } else {
+        close(v * den as f64, num as f64)
+    }
+}
+
+// @harness props=C06 tier=quick group=f64 bounds=3x3,cells=0..3 timeout=1800
+#[kani::proof]
+#[kani::unwind(20)] // King/R0/R1 compare the shape with [3, 3] by memcmp: 16 bytes
+fn stat_def_kinship_3x3() {
+    let d: [u8; 9] = small::<9>(4);
+    let scs = scs_of([3, 3], &d);
+    // index = (genotype of individual 1, genotype of individual 2)
+    let c = |i: usize, j: usize| d[i * 3 + j] as i32;
+    let king_num = c(1, 1) - 2 * (c(0, 2) + c(2, 0));
+    let king_den = c(0, 1) + c(1, 0) + 2 * c(1, 1) + c(1, 2) + c(2, 1);
+    let r0_num = c(0, 2) + c(2, 0);
+    let r1_den = c(0, 1) + c(0, 2) + c(1, 0) + c(1, 2) + c(2, 0) + c(2, 1);
+    match scs.king() {
+        Ok(k) => assert!(ratio_is(k, king_num, king_den)),
+        Err(_) => assert!(false),
+    }
+    match scs.r0() {
+        Ok(r) => assert!(ratio_is(r, r0_num, c(1, 1))),
+        Err(_) => assert!(false),
+    }
+    match scs.r1() {
+        Ok(r) => assert!(ratio_is(r, c(1, 1), r1_den)),
+        Err(_) => assert!(false),
+    }
+    kani::cover!(king_den > 0 && king_num != 0, "non-trivial");
+    core::mem::forget(scs);
+}
+
+/// f3 / f4 on small 3-D / 4-D spectra against the site-average definition
+fn stat_f3_case<const A: usize, const B: usize, const C: usize, const N: usize>() {
+    let d: [u8; N] = small::<N>(4);
+    let sfs = sfs_of([A, B, C], &d);
+    let mut f3 = 0.0f64;
+    let mut p = 0;
+    while p < N {
+        let k = unrank(&[A, B, C], p);
+        let (fa, fb, fc) = (k[0] as f64 / (A - 1) as f64, k[1] as f64 / (B - 1) as f64, k[2] as f64 / (C - 1) as f64);
+        f3 += d[p] as f64 * (fa - fb) * (fa - fc);
+        p += 1;
+    }
+    match sfs.f3() {
+        Ok(v) => assert!(close(v, f3)),
+        Err(_) => assert!(false),
+    }
+    assert!(sfs.f2().is_err() && sfs.f4().is_err() && sfs.fst().is_err());
+    kani::cover!(true, "reached end");
+    core::mem::forget(sfs);
+}
+
+// @harness props=C06 tier=quick group=f64 bounds=2x3x2,cells=0..3,tolerance=1e-9 timeout=1800
+#[kani::proof]
+#[kani::unwind(16)]
+fn stat_def_f3_2x3x2() {
+    stat_f3_case::<2, 3, 2, 12>()
+}
+
+// @harness props=C06 tier=quick group=f64 bounds=2x2x3x2,cells=0..1,tolerance=1e-9 timeout=1800
+#[kani::proof]
+#[kani::unwind(28)]
+fn stat_def_f4_2x2x3x2() {
+    let d: [u8; 24] = small::<24>(2);
+    let shape = [2usize, 2, 3, 2];
+    let sfs = sfs_of(shape, &d);
+    let mut f4 = 0.0f64;
+    let mut p = 0;
+    while p < 24 {
+        let k = unrank(&shape, p);
+        let f = [k[0] as f64, k[1] as f64, k[2] as f64 / 2.0, k[3] as f64];
+        f4 += d[p] as f64 * (f[0] - f[1]) * (f[2] - f[3]);
+        p += 1;
+    }
+    match sfs.f4() {
+        Ok(v) => assert!(close(v, f4)),
+        Err(_) => assert!(false),
+    }
+    kani::cover!(true, "reached end");
+    core::mem::forget(sfs);
+}
+
+// ------------------------------------------------------------------------------------------
+// C14 invariances
+// ------------------------------------------------------------------------------------------
+
+fn eqf(a: f64, b: f64) -> bool {
+    a == b || (a != a && b != b)
+}
+
+fn closef(a: f64, b: f64) -> bool {
+    close(a, b) || (a != a && b != b) || a == b
+}
+
+/// folding with fill zero leaves pi, theta_W and S unchanged (1-D)
+fn inv_fold_1d<const N: usize>() {
+    let d: [u8; N] = small::<N>(4);
+    let scs = scs_of([N], &d);
+    let f = scs.fold().into_spectrum(0.0);
+    assert!(closef(scs.segregating_sites(), f.segregating_sites()));
+    match (scs.pi(), f.pi(), scs.theta_watterson(), f.theta_watterson()) {
+        (Ok(a), Ok(b), Ok(c), Ok(e)) => {
+            assert!(closef(a, b));
+            assert!(closef(c, e));
+        }
+        _ => assert!(false),
+    }
+    kani::cover!(true, "reached end");
+    core::mem::forget(f);
+    core::mem::forget(scs);
+}
+
+// @harness props=C14 tier=quick group=f64 bounds=1-D,4-cells,cells=0..3,tolerance=1e-9 timeout=1800
+#[kani::proof]
+#[kani::unwind(10)]
+#[kani::stub(crate::utils::binomial, binomial_exact)]
+fn inv_fold_1d_4() {
+    inv_fold_1d::<4>()
+}
+
+// @harness props=C14 tier=quick group=f64 bounds=1-D,5-cells,cells=0..3,tolerance=1e-9 timeout=1800
+#[kani::proof]
+#[kani::unwind(10)]
+#[kani::stub(crate::utils::binomial, binomial_exact)]
+fn inv_fold_1d_5() {
+    inv_fold_1d::<5>()
+}
+
+/// folding with fill zero leaves pi_xy and f2 (and Fst) unchanged (2-D)
+fn inv_fold_2d<const A: usize, const B: usize, const N: usize>(with_fst: bool) {
+    let d: [u8; N] = small::<N>(4);
+    let scs = scs_of([A, B], &d);
+    let f = scs.fold().into_spectrum(0.0);
+    match (scs.pi_xy(), f.pi_xy()) {
+        (Ok(a), Ok(b)) => assert!(closef(a, b)),
+        _ => assert!(false),
+    }
+    let s1: Sfs = scs.clone().into_state_unchecked();
+    let s2: Sfs = f.clone().into_state_unchecked();
+    match (s1.f2(), s2.f2()) {
+        (Ok(a), Ok(b)) => assert!(closef(a, b)),
+        _ => assert!(false),
+    }
+    if with_fst {
+        match (s1.fst(), s2.fst()) {
+            (Ok(a), Ok(b)) => assert!(closef(a, b)),
+            _ => assert!(false),
+        }
+    }
+    kani::cover!(true, "reached end");
+    core::mem::forget(s1);
+    core::mem::forget(s2);
+    core::mem::forget(f);
+    core::mem::forget(scs);
+}
+
+// @harness props=C14 tier=quick group=f64 bounds=2x3,cells=0..3,pi_xy+f2,tolerance=1e-9 timeout=1800
+#[kani::proof]
+#[kani::unwind(12)]
+#[kani::stub(f64::powi, powi_model)]
+fn inv_fold_2d_2x3() {
+    inv_fold_2d::<2, 3, 6>(false)
+}
+
+// @harness props=C14 tier=thorough group=f64 bounds=3x3,cells=0..3,pi_xy+f2+fst,tolerance=1e-9 timeout=3000
+#[kani::proof]
+#[kani::unwind(14)]
+#[kani::stub(f64::powi, powi_model)]
+fn inv_fold_2d_3x3() {
+    inv_fold_2d::<3, 3, 9>(true)
+}
+
+// @harness props=C14 tier=thorough group=f64 bounds=3x3,cells=0..3,king+r0+r1-under-fold timeout=1800
+#[kani::proof]
+#[kani::unwind(20)]
+fn inv_fold_kinship() {
+    let d: [u8; 9] = small::<9>(4);
+    let scs = scs_of([3, 3], &d);
+    let f = scs.fold().into_spectrum(0.0);
+    match (scs.king(), f.king(), scs.r0(), f.r0(), scs.r1(), f.r1()) {
+        (Ok(a), Ok(b), Ok(c), Ok(e), Ok(g), Ok(h)) => {
+            assert!(closef(a, b));
+            assert!(closef(c, e));
+            assert!(closef(g, h));
+        }
+        _ => assert!(false),
+    }
+    kani::cover!(true, "reached end");
+    core::mem::forget(f);
+    core::mem::forget(scs);
+}
+
+/// the two monomorphic entries (first and last cell) do not matter for pi, theta_W, S (1-D)
+// @harness props=C14 tier=quick group=f64 bounds=1-D,5-cells,interior=0..3,ends=0..255 timeout=1800
+#[kani::proof]
+#[kani::unwind(10)]
+#[kani::stub(crate::utils::binomial, binomial_exact)]
+fn inv_monomorphic_1d_5() {
+    let mut a: [u8; 5] = small::<5>(4);
+    let mut b = a;
+    a[0] = kani::any();
+    a[4] = kani::any();
+    b[0] = kani::any();
+    b[4] = kani::any();
+    let (x, y) = (scs_of([5], &a), scs_of([5], &b));
+    assert!(eqf(x.segregating_sites(), y.segregating_sites()));
+    match (x.pi(), y.pi(), x.theta_watterson(), y.theta_watterson()) {
+        (Ok(p1), Ok(p2), Ok(t1), Ok(t2)) => {
+            assert!(eqf(p1, p2));
+            assert!(eqf(t1, t2));
+        }
+        _ => assert!(false),
+    }
+    kani::cover!(a[0] != b[0] && a[4] != b[4], "different monomorphic entries");
+    core::mem::forget(x);
+    core::mem::forget(y);
+}
+
+// @harness props=C14 tier=thorough group=f64 bounds=1-D,5-cells,interior=0..3,ends=0..255,D-statistics timeout=2400
+#[kani::proof]
+#[kani::unwind(10)]
+#[kani::stub(crate::utils::binomial, binomial_exact)]
+#[kani::stub(f64::powi, powi_model)]
+fn inv_monomorphic_d_5() {
+    let mut a: [u8; 5] = small::<5>(4);
+    let mut b = a;
+    a[0] = kani::any();
+    a[4] = kani::any();
+    b[0] = kani::any();
+    b[4] = kani::any();
+    let (x, y) = (scs_of([5], &a), scs_of([5], &b));
+    match (x.d_tajima(), y.d_tajima(), x.d_fu_li(), y.d_fu_li()) {
+        (Ok(p1), Ok(p2), Ok(t1), Ok(t2)) => {
+            assert!(eqf(p1, p2));
+            assert!(eqf(t1, t2));
+        }
+        _ => assert!(false),
+    }
+    kani::cover!(a[0] != b[0], "different monomorphic entries");
+    core::mem::forget(x);
+    core::mem::forget(y);
+}
+
+// @harness props=C14 tier=thorough group=f64 bounds=3x3,interior=0..3,corners=0..255,pi_xy+fst+king+r0+r1 timeout=2400
+#[kani::proof]
+#[kani::unwind(20)]
+#[kani::stub(f64::powi, powi_model)]
+fn inv_monomorphic_2d_3x3() {
+    let mut a: [u8; 9] = small::<9>(4);
+    let mut b = a;
+    a[0] = kani::any();
+    a[8] = kani::any();
+    b[0] = kani::any();
+    b[8] = kani::any();
+    let (x, y) = (scs_of([3, 3], &a), scs_of([3, 3], &b));
+    match (x.pi_xy(), y.pi_xy(), x.king(), y.king(), x.r0(), y.r0(), x.r1(), y.r1()) {
+        (Ok(p1), Ok(p2), Ok(k1), Ok(k2), Ok(r1), Ok(r2), Ok(s1), Ok(s2)) => {
+            assert!(eqf(p1, p2));
+            assert!(eqf(k1, k2));
+            assert!(eqf(r1, r2));
+            assert!(eqf(s1, s2));
+        }
+        _ => assert!(false),
+    }
+    let (sx, sy): (Sfs, Sfs) = (x.clone().into_state_unchecked(), y.clone().into_state_unchecked());
+    match (sx.fst(), sy.fst()) {
+        (Ok(f1), Ok(f2)) => assert!(eqf(f1, f2)),
+        _ => assert!(false),
+    }
+    kani::cover!(a[0] != b[0] && a[8] != b[8], "different monomorphic entries");
+    core::mem::forget(sx);
+    core::mem::forget(sy);
+    core::mem::forget(x);
+    core::mem::forget(y);
+}
+
+/// swapping the two populations (transposing) leaves f2, Fst, pi_xy unchanged
+fn inv_swap<const A: usize, const B: usize, const N: usize>(with_fst: bool) {
+    let d: [u8; N] = small::<N>(4);
+    let mut t = [0u8; N];
+    let mut i = 0;
+    while i < A {
+        let mut j = 0;
+        while j < B {
+            t[j * A + i] = d[i * B + j];
+            j += 1;
+        }
+        i += 1;
+    }
+    let (x, y) = (scs_of([A, B], &d), scs_of([B, A], &t));
+    match (x.pi_xy(), y.pi_xy()) {
+        (Ok(a), Ok(b)) => assert!(closef(a, b)),
+        _ => assert!(false),
+    }
+    let (sx, sy): (Sfs, Sfs) = (x.clone().into_state_unchecked(), y.clone().into_state_unchecked());
+    match (sx.f2(), sy.f2()) {
+        (Ok(a), Ok(b)) => assert!(closef(a, b)),
+        _ => assert!(false),
+    }
+    if with_fst {
+        match (sx.fst(), sy.fst()) {
+            (Ok(a), Ok(b)) => assert!(closef(a, b)),
+            _ => assert!(false),
+        }
+    }
+    kani::cover!(true, "reached end");
+    core::mem::forget(sx);
+    core::mem::forget(sy);
+    core::mem::forget(x);
+    core::mem::forget(y);
+}
+
+// @harness props=C14 tier=quick group=f64 bounds=2x3<->3x2,cells=0..3,pi_xy+f2,tolerance=1e-9 timeout=1800
+#[kani::proof]
+#[kani::unwind(12)]
+#[kani::stub(f64::powi, powi_model)]
+fn inv_swap_2x3() {
+    inv_swap::<2, 3, 6>(false)
+}
+
+// @harness props=C14 tier=thorough group=f64 bounds=3x4<->4x3,cells=0..3,pi_xy+f2+fst,tolerance=1e-9 timeout=3000
+#[kani::proof]
+#[kani::unwind(16)]
+#[kani::stub(f64::powi, powi_model)]
+fn inv_swap_3x4() {
+    inv_swap::<3, 4, 12>(true)
+}
+
+/// multiplying by c in {2, 4, 1/2} (exact in f64): ratio statistics unchanged, linear ones scale
+// @harness props=C14 tier=quick group=f64 bounds=1-D,5-cells,cells=0..3(even),c=2|4|0.5 timeout=1800
+#[kani::proof]
+#[kani::unwind(10)]
+#[kani::stub(crate::utils::binomial, binomial_exact)]
+fn inv_scale_1d_5() {
+    let d: [u8; 5] = small::<5>(4);
+    let c = match choice(3) {
+        0 => 2.0,
+        1 => 4.0,
+        _ => 0.5,
+    };
+    let x = scs_of([5], &d);
+    let mut v = [0.0f64; 5];
+    let mut i = 0;
+    while i < 5 {
+        v[i] = d[i] as f64 * c;
+        i += 1;
+    }
+    let y = Scs::new(v.to_vec(), vec![5usize]).unwrap();
+    assert!(y.sum() == c * x.sum());
+    assert!(y.segregating_sites() == c * x.segregating_sites());
+    match (x.pi(), y.pi(), x.theta_watterson(), y.theta_watterson()) {
+        (Ok(p1), Ok(p2), Ok(t1), Ok(t2)) => {
+            assert!(closef(p2, c * p1));
+            assert!(closef(t2, c * t1));
+        }
+        _ => assert!(false),
+    }
+    kani::cover!(true, "reached end");
+    core::mem::forget(x);
+    core::mem::forget(y);
+}
+
+// @harness props=C14 tier=thorough group=f64 bounds=3x3,cells=0..3,c=2|4|0.5,king+r0+r1+pi_xy timeout=2400
+#[kani::proof]
+#[kani::unwind(20)]
+fn inv_scale_3x3() {
+    let d: [u8; 9] = small::<9>(4);
+    let c = match choice(3) {
+        0 => 2.0,
+        1 => 4.0,
+        _ => 0.5,
+    };
+    let x = scs_of([3, 3], &d);
+    let mut v = [0.0f64; 9];
+    let mut i = 0;
+    while i < 9 {
+        v[i] = d[i] as f64 * c;
+        i += 1;
+    }
+    let y = Scs::new(v.to_vec(), vec![3usize, 3]).unwrap();
+    match (x.king(), y.king(), x.r0(), y.r0(), x.r1(), y.r1(), x.pi_xy(), y.pi_xy()) {
+        (Ok(k1), Ok(k2), Ok(a1), Ok(a2), Ok(b1), Ok(b2), Ok(p1), Ok(p2)) => {
+            // powers of two scale numerator and denominator exactly: the ratios are bit-equal
+            assert!(eqf(k1, k2));
+            assert!(eqf(a1, a2));
+            assert!(eqf(b1, b2));
+            assert!(closef(p2, c * p1));
+        }
+        _ => assert!(false),
+    }
+    kani::cover!(true, "reached end");
+    core::mem::forget(x);
+    core::mem::forget(y);
+}
+
+/// 2 f3(A;B,C) = f2(A,B) + f2(A,C) - f2(B,C) with the f2 values of the two-population marginals
+/// (marginals by the harness' own sums; that the real marginalize equals them is C04)
+// @harness props=C14 tier=thorough group=f64 bounds=2x2x3,cells=0..1,exact timeout=3000
+#[kani::proof]
+#[kani::unwind(16)]
+#[kani::stub(f64::powi, powi_model)]
+fn f3_from_marginal_f2_2x2x3() {
+    let d: [u8; 12] = small::<12>(2);
+    let shape = [2usize, 2, 3];
+    let mut ab = [0u8; 4];
+    let mut ac = [0u8; 6];
+    let mut bc = [0u8; 6];
+    let mut p = 0;
+    while p < 12 {
+        let k = unrank(&shape, p);
+        ab[k[0] * 2 + k[1]] += d[p];
+        ac[k[0] * 3 + k[2]] += d[p];
+        bc[k[1] * 3 + k[2]] += d[p];
+        p += 1;
+    }
+    let s3 = sfs_of(shape, &d);
+    let (sab, sac, sbc) = (sfs_of([2, 2], &ab), sfs_of([2, 3], &ac), sfs_of([2, 3], &bc));
+    match (s3.f3(), sab.f2(), sac.f2(), sbc.f2()) {
+        (Ok(f3), Ok(x), Ok(y), Ok(z)) => assert!(2.0 * f3 == x + y - z),
+        _ => assert!(false),
+    }
+    kani::cover!(true, "reached end");
+    core::mem::forget(s3);
+    core::mem::forget(sab);
+    core::mem::forget(sac);
+    core::mem::forget(sbc);
+}
+
+// ------------------------------------------------------------------------------------------
+// C17: statistics on small / degenerate shapes never panic
+// ------------------------------------------------------------------------------------------
+
+/// all 14 statistics at library level on one spectrum: every call returns Ok or Err
+fn all_stats<const R: usize, const N: usize>(shape: [usize; R]) {
+    let d: [u8; N] = small::<N>(4);
+    let scs = scs_of(shape, &d);
+    let sfs = sfs_of(shape, &d);
+    let _ = scs.sum();
+    let _ = scs.segregating_sites();
+    core::mem::forget(scs.pi());
+    core::mem::forget(scs.theta_watterson());
+    core::mem::forget(scs.d_tajima());
+    core::mem::forget(scs.d_fu_li());
+    core::mem::forget(scs.pi_xy());
+    core::mem::forget(scs.king());
+    core::mem::forget(scs.r0());
+    core::mem::forget(scs.r1());
+    core::mem::forget(sfs.f2());
+    core::mem::forget(sfs.f3());
+    core::mem::forget(sfs.f4());
+    core::mem::forget(sfs.fst());
+    kani::cover!(true, "reached end");
+    core::mem::forget(sfs);
+    core::mem::forget(scs);
+}
+
+macro_rules! stat_grid_h {
+    ($name:ident, $r:literal, $n:literal, $shape:expr, $unw:literal) => {
+        #[kani::proof]
+        #[kani::unwind($unw)]
+        #[kani::stub(crate::utils::binomial, binomial_exact)]
+        #[kani::stub(f64::powi, powi_model)]
+        fn $name() {
+            all_stats::<$r, $n>($shape)
+        }
+    };
+}
+
+//@@BEGIN STAT_GRID_CASES@@
+// @harness props=C17 tier=quick group=f64 role=ok bounds=shape=[4],cells=0..3,all-14-statistics timeout=1800
+stat_grid_h!(stat_grid_4, 1, 4, [4], 20);
+
+// @harness props=C17 tier=quick group=f64 role=ok bounds=shape=[5],cells=0..3,all-14-statistics timeout=1800
+stat_grid_h!(stat_grid_5, 1, 5, [5], 20);
+
+// @harness props=C17 tier=quick group=f64 role=degenerate bounds=shape=[3],cells=0..3,all-14-statistics timeout=1800
+stat_grid_h!(stat_degenerate_3, 1, 3, [3], 20);
+
+// @harness props=C17 tier=quick group=f64 role=degenerate bounds=shape=[2],cells=0..3,all-14-statistics timeout=1800
+stat_grid_h!(stat_degenerate_2, 1, 2, [2], 20);
+
+// @harness props=C17 tier=quick group=f64 role=degenerate bounds=shape=[1],cells=0..3,all-14-statistics timeout=1800
+stat_grid_h!(stat_degenerate_1, 1, 1, [1], 20);
+
+// @harness props=C17 tier=quick group=f64 role=degenerate bounds=shape=[0],cells=0..3,all-14-statistics timeout=1800
+stat_grid_h!(stat_degenerate_0, 1, 0, [0], 20);
+
+// @harness props=C17 tier=quick group=f64 role=ok bounds=shape=[2,2],cells=0..3,all-14-statistics timeout=1800
+stat_grid_h!(stat_grid_2x2, 2, 4, [2, 2], 20);
+
+// @harness props=C17 tier=quick group=f64 role=ok bounds=shape=[2,3],cells=0..3,all-14-statistics timeout=1800
+stat_grid_h!(stat_grid_2x3, 2, 6, [2, 3], 20);
+
+// @harness props=C17 tier=quick group=f64 role=ok bounds=shape=[3,3],cells=0..3,all-14-statistics timeout=1800
+stat_grid_h!(stat_grid_3x3, 2, 9, [3, 3], 20);
+
+// @harness props=C17 tier=thorough group=f64 role=ok bounds=shape=[4,2],cells=0..3,all-14-statistics timeout=1800
+stat_grid_h!(stat_grid_4x2, 2, 8, [4, 2], 20);
+
+// @harness props=C17 tier=quick group=f64 role=degenerate bounds=shape=[1,3],cells=0..3,all-14-statistics timeout=1800
+stat_grid_h!(stat_degenerate_1x3, 2, 3, [1, 3], 20);
+
+// @harness props=C17 tier=quick group=f64 role=degenerate bounds=shape=[3,1],cells=0..3,all-14-statistics timeout=1800
+stat_grid_h!(stat_degenerate_3x1, 2, 3, [3, 1], 20);
+
+// @harness props=C17 tier=thorough group=f64 role=degenerate bounds=shape=[1,1],cells=0..3,all-14-statistics timeout=1800
+stat_grid_h!(stat_degenerate_1x1, 2, 1, [1, 1], 20);
+
+// @harness props=C17 tier=quick group=f64 role=degenerate bounds=shape=[0,2],cells=0..3,all-14-statistics timeout=1800
+stat_grid_h!(stat_degenerate_0x2, 2, 0, [0, 2], 20);
+
+// @harness props=C17 tier=quick group=f64 role=ok bounds=shape=[2,2,2],cells=0..3,all-14-statistics timeout=1800
+stat_grid_h!(stat_grid_2x2x2, 3, 8, [2, 2, 2], 20);
+
+// @harness props=C17 tier=quick group=f64 role=ok bounds=shape=[1,2,2],cells=0..3,all-14-statistics timeout=1800
+stat_grid_h!(stat_grid_1x2x2, 3, 4, [1, 2, 2], 20);
+
+// @harness props=C17 tier=thorough group=f64 role=ok bounds=shape=[2,1,3],cells=0..3,all-14-statistics timeout=1800
+stat_grid_h!(stat_grid_2x1x3, 3, 6, [2, 1, 3], 20);
+
+// @harness props=C17 tier=thorough group=f64 role=ok bounds=shape=[1,1,1],cells=0..3,all-14-statistics timeout=1800
+stat_grid_h!(stat_grid_1x1x1, 3, 1, [1, 1, 1], 20);
+
+// @harness props=C17 tier=thorough group=f64 role=ok bounds=shape=[2,2,2,2],cells=0..3,all-14-statistics timeout=1800
+stat_grid_h!(stat_grid_2x2x2x2, 4, 16, [2, 2, 2, 2], 20);
+
+// @harness props=C17 tier=quick group=f64 role=ok bounds=shape=[1,2,1,2],cells=0..3,all-14-statistics timeout=1800
+stat_grid_h!(stat_grid_1x2x1x2, 4, 4, [1, 2, 1, 2], 20);
+
+// @harness props=C17 tier=thorough group=f64 role=ok bounds=shape=[1,1,1,1],cells=0..3,all-14-statistics timeout=1800
+stat_grid_h!(stat_grid_1x1x1x1, 4, 1, [1, 1, 1, 1], 20);
+
+// @harness props=C17 tier=thorough group=f64 role=ok bounds=shape=[2,1,1,1,1],cells=0..3,all-14-statistics timeout=1800
+stat_grid_h!(stat_grid_2x1x1x1x1, 5, 2, [2, 1, 1, 1, 1], 20);
+
+//@@END STAT_GRID_CASES@@
